@@ -395,18 +395,26 @@ Definition rdk_marks (r : rdk) : list nat :=
   r_chiral r ++ flat_map (fun b => [rb_i b; rb_j b]) (filter rb_stereo (r_bonds r)).
 
 (* "the RDKit oracle agrees with the SMILES": same atoms, same bonds, non-single bond types exactly on
-   the multiple/aromatic bonds, stereo perceived exactly on the marked atoms, same formal charge, at most
-   two radical electrons with the parity of the electron count *)
+   the multiple/aromatic bonds, stereo perceived exactly on the marked atoms, same formal charge, a radical
+   electron count with the parity of the electron count.  NOTE: this says the ORACLE equals the specification;
+   the RDKit-path theorems that assume it therefore only add "the operation list copies the oracle into the store
+   and nothing later undoes it" (Props.rdkit_path_copies_oracle states exactly that, without this premise). *)
 Record rdk_agrees (m : smol) (r : rdk) : Prop := mkAgrees {
   ra_atoms : r_atoms r = z_spec m;
   ra_bonds : forall i j, existsb (fun b => same_pair (rb_i b) (rb_j b) i j) (r_bonds r) = bond_spec m i j;
   ra_pi : forall b, In b (r_bonds r) -> rb_nonsingle b = pi_spec m (rb_i b) (rb_j b);
   ra_marks : forall k, existsb (Nat.eqb k) (rdk_marks r) = stereo_spec m k;
   ra_charge : r_charge r = charge_spec m;
-  ra_rad : r_nrad r <= 2 /\ (Z.of_nat (r_nrad r) mod 2 = n_electrons false (s_atoms m) mod 2)%Z
+  ra_rad : (Z.of_nat (r_nrad r) mod 2 = n_electrons false (s_atoms m) mod 2)%Z
 }.
 
 (* a bond between two lower-case atoms is an aromatic bond (false for a biphenyl-type linker) *)
 Definition arom_consistent (m : smol) : Prop :=
   forall b, In b (s_bonds m) ->
     sb_arom b = arom_at (s_atoms m) (sb_i b) && arom_at (s_atoms m) (sb_j b).
+
+(* minimal sanity of the RDKit oracle (no reference to the specification): some atoms, indices in range *)
+Definition rdk_wf (r : rdk) : Prop :=
+  r_atoms r <> [] /\
+  (forall k, In k (r_chiral r) -> k < length (r_atoms r)) /\
+  (forall b, In b (r_bonds r) -> rb_i b < length (r_atoms r) /\ rb_j b < length (r_atoms r)).
